@@ -27,8 +27,16 @@ def form(op):
     if isinstance(a[0], list):
         return f"{m}(list{len(a[0])})"
     if isinstance(a[0], dict):
+        if "$keep" in a[0]:
+            return f"{m}(kept-list{len(a[0]['v'])})"
+        if "$held" in a[0]:
+            return f"{m}(held-list)"
         return f"{m}(obj)"
     return f"{m}(str)"
+
+
+def _alias_sfx(passed, mutated, obj):
+    return "/caller-list-changed-since" if passed.get(obj, set()) & mutated else ""
 
 
 # ------------------------------------------------------------------------------------
@@ -41,9 +49,16 @@ def judge_c16(plan, result):
     vocab = plan.get("vocab", [])
     model = {}  # obj -> model instance; removed once the object left the specified domain
     after_reject = {}
+    passed = {}  # obj -> names of caller-owned lists it was handed (F14)
+    mutated = set()  # caller-owned lists changed after they were handed over
     for ev in result["log"]:
         op, res = ev["op"], ev["res"]
         obj = op.get("obj")
+        if op["op"] == "mutate":
+            if res.get("r") == "ok" and res.get("before") != res.get("after"):
+                mutated.add(op["name"])
+                st["caller_list_mutations"] = st.get("caller_list_mutations", 0) + 1
+            continue
         if op["op"] == "call" and op.get("cont") and res.get("r") == "exc":
             after_reject[obj] = True
         if op["op"] == "new":
@@ -69,7 +84,13 @@ def judge_c16(plan, result):
                     st["skipped"] += 1
                     del model[obj]
                     continue
-            verdict, reason = mdl.classify(op["m"], op.get("a") or [])
+            # arguments as the caller's lists stood when the call was made (logged by the executor
+            # before the call); plain arguments are what the plan says
+            args = res.get("argv") if res.get("argv") is not None else (op.get("a") or [])
+            for a in op.get("a") or []:
+                if isinstance(a, dict) and ("$keep" in a or "$held" in a):
+                    passed.setdefault(obj, set()).add(a.get("$keep") or a.get("$held"))
+            verdict, reason = mdl.classify(op["m"], args)
             outcome = "rej" if res["r"] == "exc" else "acc"
             kind = "arch" if is_arch else "lrule"
             _bump(st["transitions"], f"{kind}|{mdl.shape()}|{form(op)}|{outcome}")
@@ -85,8 +106,10 @@ def judge_c16(plan, result):
                         continue
                 else:
                     after = "/after-rejected-call" if after_reject.get(obj) else ""
+                    if passed.get(obj, set()) & mutated:
+                        after += "/caller-list-changed-since"
                     viol.append({"inv": "J1", "sig": f"C16/J1/{reason}{after}", "step": ev["i"],
-                                 "detail": {"call": [op["m"], op.get("a")], "obj": obj,
+                                 "detail": {"call": [op["m"], args], "obj": obj,
                                             "model_state": mdl.shape(), "got": res,
                                             "want": "configuration error at this call"}})
                 del model[obj]  # nothing is specified about the object afterwards
@@ -95,14 +118,14 @@ def judge_c16(plan, result):
                 del model[obj]
             else:
                 st["accepted_checked"] += 1
-                mdl.apply(op["m"], op.get("a") or [])
+                mdl.apply(op["m"], args)
         elif op["op"] == "str" and is_arch:
             st["listing_checks"] += 1
             want = mdl.tokens()
             got = _tokens(res.get("str", ""), vocab) if res["r"] == "ok" else None
             ev["model"] = {"tokens": want}
             if got != want:
-                viol.append({"inv": "J2", "sig": "C16/J2/str", "step": ev["i"],
+                viol.append({"inv": "J2", "sig": "C16/J2/str" + _alias_sfx(passed, mutated, obj), "step": ev["i"],
                              "detail": {"obj": obj, "got": res, "want_tokens": want}})
         elif op["op"] == "mapping" and is_arch:
             if res["r"] != "ok":
@@ -113,7 +136,8 @@ def judge_c16(plan, result):
             got = [(l, [i[0] for i in res["filters"].get(l, [])]) for l in res["layers"]]
             ev["model"] = {"listing": want}
             if got != [(l, ids) for l, ids in want]:
-                viol.append({"inv": "J2", "sig": "C16/J2/layer_mapping", "step": ev["i"],
+                viol.append({"inv": "J2", "sig": "C16/J2/layer_mapping" + _alias_sfx(passed, mutated, obj),
+                             "step": ev["i"],
                              "detail": {"obj": obj, "got": res, "want": want}})
         elif op["op"] == "getitem" and is_arch:
             want = dict(mdl.listing()).get(op["k"])
@@ -125,13 +149,14 @@ def judge_c16(plan, result):
             ok = res["r"] == "ok" and [i[0] for i in res["items"]] == want and all(
                 i[1] == regex for i in res["items"])
             if not ok:
-                viol.append({"inv": "J2", "sig": "C16/J2/getitem", "step": ev["i"],
+                viol.append({"inv": "J2", "sig": "C16/J2/getitem" + _alias_sfx(passed, mutated, obj), "step": ev["i"],
                              "detail": {"obj": obj, "layer": op["k"], "got": res, "want": want}})
     meta = plan.get("meta") or {}
     sched = [c for c in plan.get("schedule", [])]
     interleaved = sched != sorted(sched)
     st["nontrivial"] = bool(st["must_reject"] or interleaved)
-    st["faults"] = {"F9_client_interleave": int(interleaved), "F10_chain_mutation": st["must_reject"]}
+    st["faults"] = {"F9_client_interleave": int(interleaved), "F10_chain_mutation": st["must_reject"],
+                    "F14_caller_list_changed_after_call": st.get("caller_list_mutations", 0)}
     st["probes"] = {"client_kinds": {k: 1 for k in meta.get("client_kinds", [])}}
     return {"violations": viol, "stats": st}
 
